@@ -62,38 +62,16 @@ func checkC05(c *Ctx) {
 	c.Rule("R5.4", "NewIncreaseLevelCore validates over the whole level range and builds the core only on success", 2)
 	c.Rule("R5.11", "the IncreaseLevel option always asks for the filter core and installs it whenever it was built (equal levels now do not make the filter a no-op later)", 1)
 	c5IncreaseOption(c, "R5.11")
+	c.Rule("R5.12", "the std-log bridges always install a writer that logs through the logger at the requested level (whether that level is enabled is decided on every Write, not frozen when the bridge is built)", 15)
+	c.As(map[string]string{"R6.2": "R5.12"}, func() { c6StdBridge(c, "R6.2", c5LevelValues(c)) })
+	c.Rule("R5.13", "wrapper cores (level filter, hooks, sampler) derive a wrapper of their own kind around the derived inner core: a child never loses the filter", 5)
+	c.As(map[string]string{"R7.4": "R5.13"}, func() { c7Wrappers(c) })
 	c.Rule("R5.5", "CheckedEntry.Write in front ends only under ce != nil", 8)
 	c.Rule("R5.6", "AtomicLevel: a single atomic, read afresh by Enabled, written only by Store", 3)
 
-	iface := c.coreIface()
-	if !c.Anchor("R5.1", "zapcore.Core", iface != nil) {
+	impls := c5CheckDiscipline(c)
+	if impls == nil {
 		return
-	}
-	impls := c.Implementers(iface)
-	for _, t := range impls {
-		tn := t.Obj().Pkg().Path() + "." + t.Obj().Name()
-		class, ok := coreClass[tn]
-		if !ok {
-			c.Und("R5.1", tn, "class", t.Obj().Pos(), "new zapcore.Core implementation %s: not in the class table (leaf/filter/tee/passthrough/hookwrapper); classify it before the Check rule can be decided", tn)
-			continue
-		}
-		fn := c.Method(t.Obj().Pkg().Path(), t.Obj().Name(), "Check")
-		if fn == nil || RecvNamed(fn) == nil || RecvNamed(fn).Obj() != t.Obj() {
-			c.Und("R5.1", tn, "Check", t.Obj().Pos(), "type has no Check method of its own (promoted?)")
-			continue
-		}
-		c5Check(c, tn, class, fn)
-	}
-	for tn := range coreClass {
-		found := false
-		for _, t := range impls {
-			if t.Obj().Pkg().Path()+"."+t.Obj().Name() == tn {
-				found = true
-			}
-		}
-		if !found {
-			c.Und("R5.1", tn, "anchor", token.NoPos, "class table names %s but no such Core implementation exists", tn)
-		}
 	}
 
 	c5PreChecks(c)
@@ -1306,4 +1284,52 @@ func c5IncreaseOption(c *Ctx, rule string) {
 		}
 	}
 	c.Check(!trunc && len(seqs) >= 2 && len(bad) == 0, rule, fn.String(), "always-filters", fn.Pos(), "every path of the option asks NewIncreaseLevelCore(log.core, lvl) and installs the result exactly when it was built (%d paths; offending: %v)", len(seqs), bad)
+}
+
+// c5LevelValues: the Level constants by their short names (Debug … Fatal).
+func c5LevelValues(c *Ctx) map[string]int64 {
+	lv := map[string]int64{}
+	for _, n := range levelNames {
+		if v, ok := c.ConstVal(CorePath, n+"Level"); ok {
+			lv[n] = v
+		}
+	}
+	return lv
+}
+
+// c5CheckDiscipline: R5.1 for every zapcore.Core implementation; returns the implementations (nil when the interface
+// does not resolve).
+func c5CheckDiscipline(c *Ctx) []*types.Named {
+	iface := c.coreIface()
+	if !c.Anchor("R5.1", "zapcore.Core", iface != nil) {
+		return nil
+	}
+	impls := c.Implementers(iface)
+	for _, t := range impls {
+		tn := t.Obj().Pkg().Path() + "." + t.Obj().Name()
+		class, ok := coreClass[tn]
+		if !ok {
+			c.Und("R5.1", tn, "class", t.Obj().Pos(), "new zapcore.Core implementation %s: not in the class table (leaf/filter/tee/passthrough/hookwrapper); classify it before the Check rule can be decided", tn)
+			continue
+		}
+		fn := c.Method(t.Obj().Pkg().Path(), t.Obj().Name(), "Check")
+		if fn == nil || RecvNamed(fn) == nil || RecvNamed(fn).Obj() != t.Obj() {
+			c.Und("R5.1", tn, "Check", t.Obj().Pos(), "type has no Check method of its own (promoted?)")
+			continue
+		}
+		c5Check(c, tn, class, fn)
+	}
+	for tn := range coreClass {
+		found := false
+		for _, t := range impls {
+			if t.Obj().Pkg().Path()+"."+t.Obj().Name() == tn {
+				found = true
+			}
+		}
+		if !found {
+			c.Und("R5.1", tn, "anchor", token.NoPos, "class table names %s but no such Core implementation exists", tn)
+		}
+	}
+
+	return impls
 }
